@@ -283,10 +283,11 @@ func runORD23(p *Prog, r *RuleRun) {
 		return
 	}
 	si := p.NamedType("types", "SegmentInfo")
-	var sealTime, indexStart *types.Var
+	var sealTime, indexStart, maxIndex *types.Var
 	if si != nil {
 		sealTime = p.Field("types", "SegmentInfo", "SealTime")
 		indexStart = p.Field("types", "SegmentInfo", "IndexStart")
+		maxIndex = p.Field("types", "SegmentInfo", "MaxIndex")
 	}
 	if sealTime == nil || indexStart == nil {
 		r.Unknown("anchor", "?", "types.SegmentInfo.SealTime / IndexStart not found")
@@ -332,6 +333,8 @@ func runORD23(p *Prog, r *RuleRun) {
 				} else {
 					f.TS["idx"] = "other"
 				}
+			case maxIndex:
+				f.TS["max"] = "set"
 			}
 		case *ssa.Send:
 			if v.chanName(x.Chan) == "trigger" {
@@ -345,6 +348,7 @@ func runORD23(p *Prog, r *RuleRun) {
 		if ev == "TXN" && phase == "call" {
 			delete(f.TS, "sealtime")
 			delete(f.TS, "idx")
+			delete(f.TS, "max")
 		}
 	}
 	spec.OnAnyReturn = func(cx *Ctx, ret *ssa.Return, class RetClass, f *Fact) {
@@ -356,6 +360,8 @@ func runORD23(p *Prog, r *RuleRun) {
 		if f.TS["sealtime"] == "set" {
 			r.Check(f.TS["idx"] == "seal", key+":seal", pos, "segment marked sealed together with the seal offset obtained from the writer (ForceSeal / Sealed / rotation hand-off)",
 				"a segment is marked sealed (SealTime set) in metadata without storing the index offset the writer reported for it: after reopen the sealed segment's index is read from the wrong place; path: "+trace(f))
+			r.Check(f.TS["max"] == "set", key+":max", pos, "a segment marked sealed also gets its MaxIndex on the same path",
+				"a segment is marked sealed without its MaxIndex being set: MaxIndex 0 means 'unbounded', so lookups beyond the segment's real end are sent to it and the next segment's base index (MaxIndex+1) is wrong; path: "+trace(f))
 		}
 		// truncation transactions (reachable from DeleteRange) must hand over a finalizer
 		if cx.Fr.Root().Fn == dr {
